@@ -1156,7 +1156,7 @@ func utlsIdToSpec(id ClientHelloID) (ClientHelloSpec, error) {
 			}}, nil
 	case HelloFirefox_102:
 		return ClientHelloSpec{
-			TLSVersMin: VersionTLS10,
+			TLSVersMin: VersionTLS12,
 			TLSVersMax: VersionTLS13,
 			CipherSuites: []uint16{
 				TLS_AES_128_GCM_SHA256,
